@@ -99,6 +99,7 @@ type c31Base struct {
 	Ticket  []byte
 	Vers    uint16
 	Suite   uint16
+	KeyVers string // version label used in witness keys ("" = the spec's version)
 }
 
 func (s c31Spec) serverConfig(seed uint64, now func() time.Time) *ztls.Config {
@@ -248,6 +249,9 @@ func (b *c31Base) judge(c *core.Ctx, caseID, route, mut string, ticket []byte, w
 		obs.Orig = core.FullHex(b.Ticket)
 	}
 	vk := vname(s.Vers)
+	if b.KeyVers != "" {
+		vk = b.KeyVers
+	}
 	if !onWire {
 		if len(ticket) == 0 && s.Vers != v13 && cs.OK && ss.OK && !cs.Resumed && !ss.Resumed {
 			// an empty ticket extension is indistinguishable from "no ticket": fine
@@ -416,6 +420,190 @@ func runC31(c *core.Ctx) {
 	c31Histories(c)
 	c31Lifetimes(c)
 	c31AutoRotation(c)
+	c31ThreeConnections(c)
+}
+
+// ---------------------------------------------------------------------------
+// three-connection histories: an authentic ticket is refused for a reason other than its key, the full
+// handshake that follows issues a new ticket, and that new ticket must describe the connection that issued it.
+
+type triBase struct {
+	Name   string
+	V1     uint16
+	S1, S2 uint16
+	Kind   string
+}
+
+var triBases = []triBase{
+	{"tls12-ecdsa", v12, 0xc02b, 0xc02c, tlspair.P256},
+	{"tls12-ecdsa-cbc", v12, 0xc009, 0xc00a, tlspair.P256},
+	{"tls10-ecdsa", v10, 0xc009, 0xc00a, tlspair.P256},
+	{"tls11-ecdhe-rsa", v11, 0xc013, 0xc014, tlspair.RSA2048},
+	{"tls12-rsa", v12, 0x002f, 0x0035, tlspair.RSA2048},
+	{"tls13", v13, 0x1301, 0x1302, tlspair.P256},
+}
+
+var triReasons = []string{"none", "server_drops_suite", "version_changed", "expired", "client_auth_policy"}
+
+func c31ThreeConnections(c *core.Ctx) {
+	reps := c.Pick(1, 10)
+	p := tlspair.Get()
+	idx := 0
+	for rep := 0; rep < reps; rep++ {
+		for _, tb := range triBases {
+			for _, reason := range triReasons {
+				for _, rotated := range []bool{true, false} {
+					idx++
+					if idx%c.NShards != c.Shard {
+						continue
+					}
+					if reason == "version_changed" && (tb.V1 != v12 || suiteByID[tb.S1].TLS12Only) {
+						continue // needs a lower version that can carry the same suites
+					}
+					label := fmt.Sprintf("tri:%s:%s:rotated=%v#%d", tb.Name, reason, rotated, rep)
+					gr := c.GlobalRng(label)
+					seed := gr.Uint64() | 1
+					k1, k2 := mkTicketKey(gr), mkTicketKey(gr)
+					var offset time.Duration
+					now := func() time.Time { return tlspair.Now.Add(offset) }
+					cache := newMapCache()
+					mkClient := func(sd uint64, cc ztls.ClientSessionCache) *ztls.Config {
+						zc := tlspair.BaseClient(sd)
+						zc.MinVersion, zc.MaxVersion = tb.V1, tb.V1
+						if reason == "version_changed" {
+							zc.MinVersion = v10
+						}
+						zc.CipherSuites = []uint16{tb.S1, tb.S2}
+						zc.ClientSessionCache = cc
+						zc.Certificates = []ztls.Certificate{p.Client[tlspair.P256].Z()}
+						return zc
+					}
+					mkServer := func(sd uint64, second bool, keys ...ticketKeyMat) *ztls.Config {
+						zs := &ztls.Config{Time: now, Rand: tlspair.NewDetRand(sd ^ 0x5151), MinVersion: tb.V1, MaxVersion: tb.V1,
+							Certificates: []ztls.Certificate{p.Server[tb.Kind].Z()}, CipherSuites: []uint16{tb.S1}}
+						if second {
+							switch reason {
+							case "server_drops_suite":
+								zs.CipherSuites = []uint16{tb.S2}
+							case "version_changed":
+								zs.MinVersion, zs.MaxVersion = v10, v11
+								zs.CipherSuites = []uint16{tb.S1, tb.S2}
+							case "client_auth_policy":
+								zs.ClientAuth = ztls.RequireAndVerifyClientCert
+								zs.ClientCAs = p.ZRoots()
+							}
+						}
+						var ks [][32]byte
+						for _, k := range keys {
+							ks = append(ks, k.Key)
+						}
+						zs.SetSessionTicketKeys(ks)
+						return zs
+					}
+					var hist []string
+					// run one connection; returns sides, the ClientHello and whether the run is usable
+					run := func(conn string, zc, zs *ztls.Config, ticket []byte) (cs, ss side, onWire, ok bool) {
+						caseID := label + "/" + conn
+						input := map[string]any{"base": tb, "reason": reason, "rotated": rotated, "conn": conn, "history": hist, "presented_ticket": core.FullHex(ticket)}
+						c.Begin(caseID, input)
+						defer c.End(caseID)
+						r := tlspair.RunZZ(zc, zs, guarded(tlspair.Options{}))
+						defer r.Close()
+						cs, ss = clientSide(r), serverSide(r)
+						if reportPanics(c, r, caseID, input) {
+							return cs, ss, false, false
+						}
+						if r.TimedOut {
+							noteWatchdog(c, "C31 "+caseID)
+							return cs, ss, false, false
+						}
+						if ch, okc := firstClientHello(r.Tap); okc && ch.OK && ticket != nil {
+							if ch.LegacyVersion >= v12 && len(ch.PSKIdentities) > 0 {
+								onWire = bytes.Equal(ch.PSKIdentities[0], ticket)
+							} else {
+								onWire = ch.HasTicketExt && bytes.Equal(ch.Ticket, ticket)
+							}
+						}
+						if cs.OK && ss.OK {
+							if err := r.PingPong([]byte("tri-"+conn), []byte("ok")); err != nil {
+								if !reportPanics(c, r, caseID, input) {
+									c.Violation("application_data_failed_after_ticket_presentation:"+vname(ss.Version), err.Error(), caseID, input)
+								}
+								return cs, ss, onWire, false
+							}
+						}
+						return cs, ss, onWire, true
+					}
+					// connection 1: full handshake under K1, suite S1
+					zs1 := mkServer(seed, false, k1)
+					cs1, ss1, _, ok := run("conn1", mkClient(seed+1, cache), zs1, nil)
+					hist = append(hist, fmt.Sprintf("conn1: keys[K1] %s/%04x", vname(ss1.Version), ss1.Suite))
+					if !ok || !cs1.OK || !ss1.OK || cache.only() == nil {
+						if ok {
+							c.Violation("initial_session_failed:"+tb.Name, fmt.Sprintf("client %v server %v", cs1.Err, ss1.Err), label, hist)
+						}
+						continue
+					}
+					sess1 := cache.only()
+					t1 := ztls.VerifSessionTicket(sess1)
+					// connection 2: the authentic ticket T1 is presented; the server refuses it for a non-key reason
+					keys2 := []ticketKeyMat{k1}
+					if rotated {
+						keys2 = []ticketKeyMat{k2, k1}
+					}
+					if reason == "expired" {
+						offset = 8 * 24 * time.Hour
+					}
+					zs2 := mkServer(seed+2, true, keys2...)
+					cs2, ss2, onWire, ok := run("conn2", mkClient(seed+3, cache), zs2, t1)
+					hist = append(hist, fmt.Sprintf("conn2: keys%v reason=%s -> %s/%04x resumed=%v", map[bool]string{true: "[K2,K1]", false: "[K1]"}[rotated], reason, vname(ss2.Version), ss2.Suite, ss2.Resumed))
+					if !ok {
+						continue
+					}
+					kv := "tls<=1.2"
+					if tb.V1 == v13 {
+						kv = "1.3"
+					}
+					b1 := &c31Base{Spec: c31Spec{Name: label, Vers: tb.V1}, Ticket: t1, Vers: ss1.Version, Suite: ss1.Suite, KeyVers: kv}
+					b1.judge(c, label+"/conn2", "cache", "tri_conn2:"+reason, t1, reason == "none", cs2, ss2, onWire, label, "conn2")
+					if !cs2.OK || !ss2.OK {
+						continue
+					}
+					sess2 := cache.only()
+					t2 := ztls.VerifSessionTicket(sess2)
+					if sess2 == nil || bytes.Equal(t2, t1) {
+						c.Count("tri_no_new_ticket_after_conn2:"+reason, 1)
+						continue
+					}
+					if v, su := ztls.VerifSessionInfo(sess2); (v != cs2.Version || su != cs2.Suite) && !(cs2.Version == v13) {
+						c.Violation("cached_session_records_other_parameters", fmt.Sprintf("cached %s/%04x, connection %s/%04x", vname(v), su, vname(cs2.Version), cs2.Suite), label, hist)
+					}
+					// connection 3a: the new ticket under the parameters of connection 2 must resume with connection 2's parameters
+					b2 := &c31Base{Spec: c31Spec{Name: label, Vers: ss2.Version}, Ticket: t2, Vers: ss2.Version, Suite: ss2.Suite, KeyVers: kv}
+					fresh := func() *mapCache { m := newMapCache(); m.Put(tlspair.ServerName, sess2); return m }
+					if reason == "expired" {
+						offset += time.Hour
+					}
+					cs3, ss3, onWire3, ok := run("conn3_same_parameters", mkClient(seed+4, fresh()), zs2, t2)
+					hist = append(hist, fmt.Sprintf("conn3(same parameters): %s/%04x resumed=%v", vname(ss3.Version), ss3.Suite, ss3.Resumed))
+					if ok {
+						b2.judge(c, label+"/conn3_same_parameters", "cache", "tri_new_ticket_same_parameters:"+reason, t2, true, cs3, ss3, onWire3, label, "conn3a")
+					}
+					// connection 3b: the new ticket under the old parameters (both keys installed)
+					if reason != "expired" {
+						zs1b := mkServer(seed+5, false, k2, k1)
+						want := reason == "none"
+						cs4, ss4, onWire4, ok := run("conn3_old_parameters", mkClient(seed+6, fresh()), zs1b, t2)
+						hist = append(hist, fmt.Sprintf("conn3(old parameters): %s/%04x resumed=%v", vname(ss4.Version), ss4.Suite, ss4.Resumed))
+						if ok {
+							b2.judge(c, label+"/conn3_old_parameters", "cache", "tri_new_ticket_old_parameters:"+reason, t2, want, cs4, ss4, onWire4, label, "conn3b")
+						}
+					}
+					c.Count("three_connection_histories", 1)
+				}
+			}
+		}
+	}
 }
 
 // ---------------------------------------------------------------------------
